@@ -239,6 +239,17 @@ def impl(case):
                 r = [float(v) for v in r]
                 if len(r) != len(serial) or any(not (x == y or (x != x and y != y)) for x, y in zip(r, serial)):
                     raise RuntimeError(f"delayed result differs from serial: {r} vs {serial}")
+            # lazy scores of a SECOND, different model built before anything is computed, then everything computed in ONE graph:
+            # each task must still belong to its own call (no sharing of task names / results across calls)
+            other = {"moment": lambda: MomentGridder(tag=5), "trend": lambda: vd.Trend(2), "chain": lambda: vd.Chain([("t", vd.Trend(2))]),
+                     "vector": lambda: vd.Vector([vd.Trend(0), vd.Trend(2)])}[est]()
+            serial_b = [float(v) for v in vd.cross_val_score(other, cs, d_arg, weights=w_arg, cv=make_cv(cvspec), scoring=scoring)]
+            lazy_a = vd.cross_val_score(estimator, cs, d_arg, weights=w_arg, cv=make_cv(cvspec), scoring=scoring, delayed=True)
+            lazy_b = vd.cross_val_score(other, cs, d_arg, weights=w_arg, cv=make_cv(cvspec), scoring=scoring, delayed=True)
+            both = [float(v) for v in dask.compute(*lazy_a, *lazy_b, scheduler="synchronous")]
+            same = lambda x, y: len(x) == len(y) and all(p == q or (p != p and q != q) for p, q in zip(x, y))  # noqa: E731
+            if not (same(both[:len(serial)], serial) and same(both[len(serial):], serial_b)):
+                raise RuntimeError(f"delayed scores of two calls computed in one graph got mixed up: {both} vs {serial} + {serial_b}")
             if _deep_state(estimator) != before:
                 raise RuntimeError("estimator (or an estimator nested in it) modified")
             if prefit and _deep_state(estimator.predict(q)) != pred0:
@@ -293,6 +304,10 @@ def _splinecv(a):
             warnings.simplefilter("ignore")
             cv = KFold(n_splits=k, shuffle=True, random_state=0)
             scv = vd.SplineCV(dampings=dampings, cv=cv).fit(cs, d, w)
+            scv_lazy = vd.SplineCV(dampings=dampings, cv=cv, delayed=True).fit(cs, d, w)
+            lazy_scores = [float(v) for v in dask.compute(*scv_lazy.scores_, scheduler="synchronous")]      # documented: Delayed objects
+            if not np.allclose(lazy_scores, scv.scores_, rtol=1e-12, atol=0) or scv_lazy.damping_ != scv.damping_:
+                raise RuntimeError(f"SplineCV(delayed=True) differs from the serial run: scores {lazy_scores} vs {list(scv.scores_)}")
             means = []
             for dm in dampings:
                 sc = vd.cross_val_score(vd.Spline(damping=dm), cs, d, weights=w, cv=cv)
